@@ -33,7 +33,9 @@ Judge1D(e) ==
   LET p == PoseOf(e)
       mr == ModuleRuns(e.runs)
       g == GCDSeq(e.runs)
-      rdr == IF e.rd = "multi" THEN "MULTI" ELSE IF e.rd = "ext" THEN "C39X" ELSE e.sym
+      \* se = 1: the RETURN_CODABAR_START_END hint was passed (the answer keeps the guard characters)
+      rdr == IF e.rd = "multi" THEN "MULTI" ELSE IF e.rd = "ext" THEN "C39X"
+             ELSE IF e.sym = "CBAR" /\ Has(e, "se") /\ e.se = 1 THEN "CBARSE" ELSE e.sym
       F == ToR(ReadSym(rdr, mr))
       B == ToR(ReadSym(rdr, Rev(mr)))
       want == Expected1D(e.w0, e.h0, p, e.th = 1, F, B)
